@@ -606,6 +606,16 @@ def _check(case, ctx, inst):
     redox = case["redox"]
     # generator-side labels: only those that are not measured again on the dump (the evidence histogram keeps 80 labels)
     classes = [l for l in case.get("labels", []) if l.startswith(("profile=", "redox=", "follow=", "history=0", "hist_", "excluded_", "known_"))]
+    if any("-cvode true" in s for s in case["sims"]):
+        # Pre-flight for CVODE kinetics: when an equilibrium call inside the integrator does not converge, CVODE keeps
+        # retrying with smaller steps and one follow-up can run for > 20 min (seen on the original instance, nothing to do
+        # with restoring).  The same history + follow-up is therefore first run with the Runge-Kutta integrator, which
+        # gives up after a few seconds; a case that fails there is outside the domain (calculation does not complete).
+        Pf = inst()
+        for s in case["sims"] + [case["follow"]]:
+            if Pf.run_string(s.replace("-cvode true", "-cvode false")) != 0:
+                raise Discard("cvode_preflight_not_converged")
+        Pf.close()
     A = inst()
     for k, s in enumerate(case["sims"]):
         if A.run_string(s) != 0:
